@@ -656,8 +656,17 @@ func (e *Env) call(n *SCall) SVal {
 		}
 		return SVal{t: app("Bool", ">", v, e.old.alloc), gt: boolT}
 	case "allocated":
-		v := e.rv(e.eval(n.Args[0]))
-		return SVal{t: mkAnd(app("Bool", ">", v, intLit(0)), le(v, e.alloc)), gt: boolT}
+		av := e.eval(n.Args[0])
+		v := e.rv(av)
+		r := mkAnd(app("Bool", ">", v, intLit(0)), le(v, e.alloc))
+		if av.gt != nil {
+			if pt, ok := av.gt.Underlying().(*types.Pointer); ok {
+				if tf, ok := w.typeTagFact(v, pt.Elem()); ok {
+					r = mkAnd(r, tf)
+				}
+			}
+		}
+		return SVal{t: r, gt: boolT}
 	case "is", "as":
 		v := e.rv(e.eval(n.Args[0]))
 		id, ok := n.Args[1].(*SIdent)
@@ -716,8 +725,17 @@ func (e *Env) call(n *SCall) SVal {
 		if e.old == nil {
 			e.fail("existed() needs a pre-state")
 		}
-		v := e.rv(e.eval(n.Args[0]))
-		return SVal{t: mkAnd(app("Bool", ">", v, intLit(0)), le(v, e.old.alloc)), gt: boolT}
+		av := e.eval(n.Args[0])
+		v := e.rv(av)
+		r := mkAnd(app("Bool", ">", v, intLit(0)), le(v, e.old.alloc))
+		if av.gt != nil {
+			if pt, ok := av.gt.Underlying().(*types.Pointer); ok {
+				if tf, ok := w.typeTagFact(v, pt.Elem()); ok {
+					r = mkAnd(r, tf)
+				}
+			}
+		}
+		return SVal{t: r, gt: boolT}
 	case "mk":
 		// mk(StructType, field values in declaration order)
 		gt, sort := w.resolveType(e.pkg, specText(n.Args[0]))
@@ -895,6 +913,18 @@ func (e *Env) call(n *SCall) SVal {
 			}
 		}
 		return SVal{t: mkAnd(cs...), gt: boolT}
+	case "deref":
+		// deref(p): the value stored in the cell that pointer p refers to
+		v := e.eval(n.Args[0])
+		if v.gt == nil {
+			e.fail("deref() needs a typed pointer")
+		}
+		pt, ok := v.gt.Underlying().(*types.Pointer)
+		if !ok {
+			e.fail("deref() of a non-pointer")
+		}
+		pv := e.s.toPtr(e.rv(v), v.gt)
+		return SVal{t: e.s.loadFrom(e.heap, pv), gt: pt.Elem()}
 	case "keptExcept":
 		// keptExcept(x, locs...): in the given arrays every object of the pre-state other than x is untouched
 		if e.old == nil {
